@@ -391,7 +391,7 @@ type stats struct {
 var st stats
 
 // watchdog bounds one driven call; firing is inconclusive, never a verdict.
-var watchdog = 20 * time.Second
+var watchdog = 45 * time.Second
 
 // drive runs FetchWithParallelRangeRequests against the scripted transport,
 // releasing one pending attempt at a time (in rank order) each time the
@@ -434,6 +434,7 @@ func drive(sc *script, hc hedgeCfg, served []byte) outcome {
 		rt.mu.Unlock()
 		return out
 	}
+	notParked := 0
 	for {
 		// settle: yield until the transport's activity counter is stable
 		last := rt.activity.Load()
@@ -467,11 +468,15 @@ func drive(sc *script, hc hedgeCfg, served []byte) outcome {
 				out.Deliveries = rt.deliveries()
 				return out
 			}
-			if out.Dumps%64 == 0 {
-				time.Sleep(50 * time.Microsecond) // be polite on a loaded machine; not a verdict
-			}
+			// A goroutine dump stops the world; dumping in a tight loop while the
+			// fetcher is busy (large bodies, decompression, a loaded machine)
+			// would starve the very goroutines we are waiting for. Back off
+			// progressively. The sleep shapes nothing but the polling rate.
+			notParked++
+			time.Sleep(time.Duration(min(notParked*notParked, 400)) * 10 * time.Microsecond)
 			continue
 		}
+		notParked = 0
 		att, how := rt.pick()
 		if att == nil {
 			if pi.children == 0 {
@@ -490,6 +495,8 @@ func drive(sc *script, hc hedgeCfg, served []byte) outcome {
 				out.Deliveries = rt.deliveries()
 				return out
 			}
+			notParked++
+			time.Sleep(time.Duration(min(notParked*notParked, 400)) * 10 * time.Microsecond)
 			continue
 		}
 		out.Steps++
